@@ -613,9 +613,10 @@ def round2_programs(dev):
         {"op": "aspirate", "lw": P, "wells": L([(0, 0), (1, 1)]), "vols": L([1, NAN]), "label": None},
         {"op": "add", "lw": P, "wells": L([(0, 1)]), "vols": S(NAN), "label": None},
         {"op": "remove", "lw": T, "wells": L([(0, 0)]), "vols": S(NAN), "label": None},
-        {"op": "dispense", "lw": P, "wells": L([(0, 1)]), "vols": S(40), "label": "would overflow a poisoned well"},
+        {"op": "dispense", "lw": P, "wells": L([(0, 1)]), "vols": S(35), "label": "would overflow a poisoned well"},
+        {"op": "aspirate", "lw": P, "wells": L([(1, 1)]), "vols": S(2), "label": "would underflow a poisoned well"},
         {"op": "transfer", "src": T, "sw": L([(0, 0)]), "dst": P, "dw": L([(0, 1)]), "vols": S(NAN), "label": "nan transfer", "wash": 1},
-    ], flags={"comp": False, "norm": False})
+    ], wlmax=40, flags={"comp": False, "norm": False})
     # a multi-well dispense with compositions that overflows in a later well
     prog("overflow-midway-with-compositions", lw(), [
         {"op": "dispense", "lw": P, "wells": L([(0, 0), (2, 3), (1, 1)]), "vols": L([5, 20, 3]), "label": "second overflows",
